@@ -42,7 +42,7 @@ func (c05) Info() core.Info {
 			"bounded memory = the live heap stays below 1 GiB during every call (watchdog) and no single call allocates more than 1 GiB + 4096x the stream size cumulatively (runtime/metrics, exact to about 2 MiB); cumulative allocation that is merely quadratic (scte35.String) is not counted as a violation",
 			"a call that makes no progress for 10 s is a hang (confirmed by replay in a fresh process)",
 		},
-		RequiredProbes: []string{"no_fault_positive_control", "section_truncated", "length_enlarged", "length_reduced", "misaligned_stream", "reached_pat", "reached_pmt", "reached_scte35", "reached_ebp", "reached_pes", "reached_filter", "reached_state", "reached_restamp", "reached_readfrom", "stress_long_unit"},
+		RequiredProbes: []string{"no_fault_positive_control", "section_truncated", "length_enlarged", "length_reduced", "misaligned_stream", "reached_pat", "reached_pmt", "reached_scte35", "reached_ebp", "reached_pes", "reached_filter", "reached_state", "reached_restamp", "reached_readfrom", "stress_long_unit", "directed_odd_but_consistent_sections"},
 	}
 }
 
@@ -410,6 +410,52 @@ func (d *c05Run) ro(name string, buf []byte, f func()) bool {
 	return true
 }
 
+// c05Directed: splice_info_sections that are consistent in every length field but end their
+// segmentation descriptor 0..3 bytes after the last mandatory field (one spare byte is half a
+// sub-segment pair), for every segmentation type that has optional trailing fields and some
+// that have not; and the same with the descriptor as the last / not the last of the loop.
+func c05Directed(s *C05Script, c *core.Ctx) bool {
+	c.Probe("directed_odd_but_consistent_sections")
+	d := &c05Run{c: c, limit: 1 << 30}
+	for _, typ := range []int{0x34, 0x36, 0x38, 0x3A, 0x30, 0x10, 0x00} {
+		for tail := 0; tail <= 3; tail++ {
+			seg := ref.SegDesc{Event: uint32(s.Stamp), Program: true, NotRestricted: true, Type: typ, SegNum: 1, SegExp: 2, Tail: make(core.Hex, tail)}
+			for _, after := range []bool{false, true} {
+				sec := ref.Section{Tier: 0xFFF, Cmd: ref.Cmd{Kind: "time", Time: ref.SpliceTime{Has: true, PTS: 90000}}, Items: []ref.SpliceItem{{Seg: &seg}}}
+				if after {
+					sec.Items = append(sec.Items, ref.SpliceItem{Foreign: core.Hex{0x00, 0x08, 'C', 'U', 'E', 'I', 0, 0, 0, 1}})
+				}
+				enc, _ := sec.Bytes()
+				if !d.scte(append([]byte{0}, enc...), "directed") {
+					return false
+				}
+			}
+		}
+	}
+	// A PMT unit that loses its continuation (the first packet of a multi-packet unit, scanned
+	// past a pointer_field or a complete neighbour section), followed on the same PID by a
+	// complete PMT whose first packet carries only a few payload bytes: whatever a stream
+	// reader remembers about the abandoned unit must not be applied to the new one.
+	pm := ref.PMTSpec{Program: 1, Version: 2, CurrentNext: true, PCRPID: 0x100}
+	for i := 0; i < 25; i++ {
+		pm.Streams = append(pm.Streams, ref.ES{Type: 0x1B, PID: 0x100 + i, Descs: []ref.Desc{{Tag: 10, Body: []byte("eng\x00")}}})
+	}
+	sec := pm.Section()
+	neighbour := ref.ForeignSection{TableID: 0xC0, Body: make([]byte, 60)}.Section()
+	for _, lead := range [][]byte{ref.Payload(0, [][]byte{sec}, 0), ref.Payload(70, [][]byte{sec}, 0), ref.Payload(0, [][]byte{neighbour, sec}, 0), ref.Payload(150, [][]byte{sec}, 0)} {
+		first := parties.Packetise(lead, parties.Carrier{PID: 0x64, CC: 3})
+		for _, k := range []int{1, 2, 3, 20, 60, 100} {
+			second := parties.Packetise(ref.Payload(0, [][]byte{sec}, 0), parties.Carrier{PID: 0x64, CC: 9, Sizes: []int{k}, Styles: []string{"af", "ff", "ff", "ff"}})
+			stream := append([]byte(nil), first[0][:]...) // only the first packet of the first unit survives
+			stream = append(stream, parties.Flatten(second)...)
+			if !d.call("psi.ReadPMT(after an abandoned unit)", func() { psi.ReadPMT(bytes.NewReader(stream), 0x64) }) {
+				return false
+			}
+		}
+	}
+	return true
+}
+
 // stress: resource bounds on long inputs (linear time and memory in the input size).
 func c05Stress(s *C05Script, c *core.Ctx) {
 	n := s.Stress
@@ -533,6 +579,11 @@ func (c05) Exec(script interface{}, c *core.Ctx) {
 	if s.Stress > 0 {
 		c05Stress(s, c)
 		return
+	}
+	if s.Stamp%16 == 3 {
+		if !c05Directed(s, c) {
+			return
+		}
 	}
 	b := c05Build(s, c)
 	st := b.stream
